@@ -522,6 +522,11 @@ func decodeBody(ce string, body []byte) (ok bool, data []byte) {
 
 func nRun(cs chainCase) int {
 	switch cs.Entry {
+	case "NET":
+		if cs.Routed {
+			return cs.Lv[0] + cs.Lv[1] + cs.Lv[2]
+		}
+		return cs.Lv[0]
 	case "H":
 		return 0
 	case "HF":
@@ -571,7 +576,7 @@ func runChainCase(tw *traceWriter, cs chainCase, rid *int) {
 	c := buildChainContainer(cs, true)
 	twin := buildChainContainer(cs, false)
 	method, path := chainRequestPath(cs)
-	routedLike := cs.Routed && (cs.Entry == "D" || cs.Entry == "S")
+	routedLike := cs.Routed && (cs.Entry == "D" || cs.Entry == "S" || cs.Entry == "NET")
 	// two requests in sequence on the same container (fresh chain, pool reuse)
 	prevPanicked := false
 	for rep := 0; rep < 2; rep++ {
@@ -608,21 +613,51 @@ func runChainCase(tw *traceWriter, cs chainCase, rid *int) {
 			out = fw
 		}
 		var pv interface{}
-		func() {
-			defer func() { pv = recover() }()
-			switch cs.Entry {
-			case "D":
-				c.Dispatch(out, hr)
-			default:
-				c.ServeHTTP(out, hr)
+		var netResp *http.Response
+		var netBody []byte
+		if cs.Entry == "NET" {
+			// a real net/http server and client (no transparent decompression) in between
+			srv := httptest.NewServer(c)
+			creq, _ := http.NewRequest(method, srv.URL+path, nil)
+			creq.Header.Set("X-Rid", id)
+			if cs.AE != "" {
+				creq.Header.Set("Accept-Encoding", cs.AE)
 			}
-		}()
+			if altHdr != "" {
+				creq.Header.Set("X-Alt", altHdr)
+			}
+			cl := &http.Client{Transport: &http.Transport{DisableCompression: true}}
+			if resp, err := cl.Do(creq); err == nil {
+				netResp = resp
+				netBody, _ = io.ReadAll(resp.Body)
+				resp.Body.Close()
+			}
+			cl.CloseIdleConnections()
+			srv.Close()
+		} else {
+			func() {
+				defer func() { pv = recover() }()
+				switch cs.Entry {
+				case "D":
+					c.Dispatch(out, hr)
+				default:
+					c.ServeHTTP(out, hr)
+				}
+			}()
+		}
 		prov.mu.Lock()
 		prov.cur = nil
 		prov.mu.Unlock()
 		curLog = nil
 		body := rec.Body.Bytes()
 		ce := rec.Header().Get("Content-Encoding")
+		if cs.Entry == "NET" {
+			if netResp == nil {
+				fatal("no response from the test server")
+			}
+			body, ce = netBody, netResp.Header.Get("Content-Encoding")
+			rec.Code = netResp.StatusCode
+		}
 		dce := ce
 		if cs.PreCE != "" {
 			dce = "" // the container must not have encoded: the body is taken as is
@@ -842,6 +877,18 @@ func randomChainCase(r *rand.Rand, mode string) chainCase {
 			}
 		}
 		cs.Tgt = "ok"
+	}
+	if mode == "enc" && r.Intn(8) == 0 && cs.PreCE == "" {
+		// through a real server: no panics (the server would swallow them), no pre-set header
+		cs.Entry, cs.Tgt, cs.Rec = "NET", "ok", true
+		for i := range cs.Sc {
+			if cs.Sc[i] == "pb" || cs.Sc[i] == "pa" {
+				cs.Sc[i] = "pass"
+			}
+		}
+		if cs.Payload > 70000 {
+			cs.Payload = 70000
+		}
 	}
 	if mode == "enc" {
 		cs.FlipAfter = r.Intn(3) == 0
